@@ -9,6 +9,7 @@ import (
 	"sort"
 	"strings"
 	"sync"
+	"sync/atomic"
 	"time"
 
 	"github.com/fatedier/frp/pkg/msg"
@@ -271,6 +272,8 @@ func (w *msgWorld) closeSlot(i int) bool {
 	return true
 }
 
+var leftOpenSeen atomic.Int64
+
 func md5hex(s string) string { x := md5.Sum([]byte(s)); return hex.EncodeToString(x[:]) }
 
 func (w *msgWorld) genVisit(k int) *visit {
@@ -517,12 +520,16 @@ func (w *msgWorld) performStream(v *visit, carrier *h.Peer, admit bool, reason s
 	if err != nil {
 		c.Ev("visit-no-reply", "k", v.K, "err", err.Error())
 		if carrier.Closed() || isTimeout(err) {
+			if target != nil {
+				w.flagged[target.Name]++
+			}
 			run.Inconclusive("stream visitor: no reply (watchdog / carrier gone)")
 			return !carrier.Closed()
 		}
 		if !admit {
 			c.Violation("stream-refusal-without-error-reply", "NewVisitorConn that must be refused (%s) was not answered with an error: the connection ended with %v", reason, err)
 		} else {
+			w.flagged[target.Name]++ // the owner may have been reached for it: its transcript is not judged
 			run.Inconclusive("stream visitor: admissible request got no reply")
 		}
 		return true
@@ -537,14 +544,18 @@ func (w *msgWorld) performStream(v *visit, carrier *h.Peer, admit bool, reason s
 			return true
 		}
 		// a refused connection is closed by the server and carries nothing else
-		_ = conn.SetReadDeadline(time.Now().Add(15 * time.Second))
+		if leftOpenSeen.Load() >= 3 {
+			return true // reported already; do not spend 20 s per refusal on a tree that never closes them
+		}
+		_ = conn.SetReadDeadline(time.Now().Add(20 * time.Second))
 		buf := make([]byte, 64)
 		n, rerr := conn.Read(buf)
 		switch {
 		case n > 0:
 			c.Violation("data-after-refusal", "refused visitor connection (%s) received %d more bytes after the error reply: %q", reason, n, buf[:n])
 		case isTimeout(rerr):
-			c.Violation("refused-visitor-connection-left-open", "visitor connection refused with %q (%s) is still open 15 s after the error reply", resp.Error, reason)
+			leftOpenSeen.Add(1)
+			c.Violation("refused-visitor-connection-left-open", "visitor connection refused with %q (%s) is still open 20 s after the error reply", resp.Error, reason)
 		}
 		return true
 	}
@@ -577,6 +588,7 @@ func (w *msgWorld) performStream(v *visit, carrier *h.Peer, admit bool, reason s
 	w.admittedNonce[target.Name][nonce] = true
 	rwc, err := h.Wrap(conn, sk, v.Enc, v.Comp)
 	if err != nil {
+		w.flagged[target.Name]++
 		run.Inconclusive("wrap failed")
 		return true
 	}
@@ -778,7 +790,9 @@ func (w *msgWorld) finish() {
 			}
 			continue
 		}
-		if e.Nonce == "" || !w.admittedNonce[e.Proxy][e.Nonce] {
+		if e.Nonce != "" && !strings.HasPrefix(e.Nonce, "N") {
+			c.Violation("owner-read-bytes-no-visitor-sent", "owner %s read %q as the first 16 bytes of a work connection for %s: no visitor of this case sent that", e.Sess, e.Nonce, e.Proxy)
+		} else if e.Nonce == "" || !w.admittedNonce[e.Proxy][e.Nonce] {
 			c.Violation("owner-reached-for-refused-visitor", "owner %s received StartWorkConn for %s with nonce %q (%s, done=%v) that belongs to no admitted visitor request", e.Sess, e.Proxy, e.Nonce, e.Err, e.Done)
 		}
 	}
